@@ -7,11 +7,16 @@ FLAGS = ["--no-vcs-ignore", "--no-project-ignore", "--no-global-ignore", "--no-d
 SRC = {"from_gitignore": 1, "from_dotignore": 2, "from_hgignore": 3, "sub/from_sub_gitignore": 4, "from_git_exclude": 5,
        "from_global_git": 6, "from_global_app": 7, "from_explicit_file": 9}
 PROJ = "[(5, 1, Some PT_Git); (2, 1, None); (1, 1, Some PT_Git); (3, 1, Some PT_Mercurial); (4, 1, Some PT_Git)]%N"
+SRC_NOVCS = {"from_gitignore": 1, "from_dotignore": 2, "sub/from_hgignore": 3, "sub/from_sub_gitignore": 4, "from_global_git": 6, "from_global_app": 7,
+             "from_explicit_file": 9}
+PROJ_NOVCS = "[(2, 1, None); (1, 1, Some PT_Git); (3, 1, Some PT_Mercurial); (4, 1, Some PT_Git)]%N"     # the same tree without .git
 GLOB = "[(6, 0, Some PT_Git); (7, 0, None)]%N"
 # explicit options under test: (name, args, probes it affects with the verdict it forces when alone)
 OPTIONS = [
     ("none", [], {}),
     ("ignore-file", ["--ignore-file", "extra.ign"], {}),
+    # the same file by its absolute path, and a probe outside the project origin (another watched directory): explicit files apply globally
+    ("ignore-file-abs", ["--ignore-file", "@PROJ@/extra.ign"], {"OUT/from_explicit_file": False}),
     ("ignore", ["--ignore", "from_cli_ignore"], {"from_cli_ignore": False}),
     ("filter", ["--filter", "*.keep"], {"a.keep": True}),
     ("filter-file", ["--filter-file", "filters.txt"], {"b.keep": True}),
@@ -36,9 +41,9 @@ class C12(Prop):
     def correspond(self, tier, seed, deep=False):
         c = Corr()
         c.exhaustive = True
-        c.rule = ("exhaustive: all 64 combinations of the six ignore-source flags x 7 explicit options (none, --ignore-file, --ignore, "
+        c.rule = ("exhaustive: all 64 combinations of the six ignore-source flags x 8 explicit options (none, --ignore-file by relative and by absolute path with a probe outside the origin, --ignore, "
                   "--filter, --filter-file, --exts, --fs-events) in a sandbox project with .gitignore, .ignore, .hgignore, nested "
-                  ".gitignore, .git/info/exclude, global git ignore, global app ignore, built-in-default hits; per case the list returned "
+                  ".gitignore, .git/info/exclude, global git ignore, global app ignore, built-in-default hits, and x 2 options in the same project without any VCS metadata directory; per case the list returned "
                   "by dirs::ignores and the verdicts of WatchexecFilterer for one probe per source are compared with the model. "
                   "non-trivial = every (flags, option) pair with at least one flag or option")
         cases = []
@@ -46,7 +51,10 @@ class C12(Prop):
             fl = [FLAGS[i] for i in range(6) if bits >> i & 1]
             for name, args, extra in OPTIONS:
                 probes = list(SRC) + ["x.pyc", "plain.txt"] + list(extra)
-                cases.append({"bits": bits, "opt": name, "args": fl + args, "probes": probes, "extra": extra})
+                cases.append({"bits": bits, "opt": name, "args": fl + args, "probes": probes, "extra": extra, "layout": "git"})
+            # a project without any VCS metadata directory that still has VCS ignore files
+            for name, args, extra in OPTIONS[:2]:
+                cases.append({"bits": bits, "opt": name, "args": fl + args, "probes": list(SRC_NOVCS) + ["x.pyc", "plain.txt"], "extra": extra, "layout": "novcs"})
         d = scratch("c12")
         write_jsonl(os.path.join(d, "cases.jsonl"), cases)
         rc, obs, out = run_harness("h_cli", ["ignores", os.path.join(d, "cases.jsonl"), os.path.join(d, "fs")], timeout=900)
@@ -55,9 +63,9 @@ class C12(Prop):
             return c
         terms = []
         for case, o in zip(cases, obs):
-            expl = "[9]%N" if case["opt"] == "ignore-file" else "[]"
-            vcs = "[PT_Git; PT_Mercurial]"
-            terms.append(f"eval_select true {case['bits']}%N {vcs} {PROJ} {GLOB} {expl}")
+            expl = "[9]%N" if case["opt"].startswith("ignore-file") else "[]"
+            vcs = coq_list(["PT_" + v for v in o.get("vcs", [])])          # the project types the CLI detected
+            terms.append(f"eval_select true {case['bits']}%N {vcs} {PROJ if case['layout'] == 'git' else PROJ_NOVCS} {GLOB} {expl}")
         res, err = coq_eval("c12", ["Gen.Origins_gen", "Cli.IgnoreSources", "Run.EvalC12"], terms)
         if err:
             c.errors.append("model evaluation failed: " + err[-800:])
@@ -78,13 +86,14 @@ class C12(Prop):
                     c.disagreements.append({"case": case["args"], "impl": o["listed"], "model": sel_list, "what": "dirs::ignores list"})
             # expected verdicts from the model's selection
             exp = {}
+            srcs = SRC if case["layout"] == "git" else SRC_NOVCS
             filtered = case["opt"] in ("filter", "filter-file", "exts")
             for p in case["probes"]:
                 name = p.split("@")[0]
                 if p in case["extra"]:
                     exp[p] = case["extra"][p]
-                elif p in SRC:
-                    exp[p] = (SRC[p] not in sel_ids) and not filtered
+                elif p in srcs:
+                    exp[p] = (srcs[p] not in sel_ids) and not filtered
                 elif name == "x.pyc":
                     exp[p] = (dflag == "F") and not filtered
                 else:
@@ -100,7 +109,7 @@ class C12(Prop):
                 c.nontrivial.add(json.dumps([case["bits"], case["opt"]]))
             c.count("opt=" + case["opt"])
             # ---- monitors: explicit options behave the same under every flag mix
-            if case["opt"] == "ignore-file" and o["verdicts"].get("from_explicit_file") is not False:
+            if case["opt"].startswith("ignore-file") and o["verdicts"].get("from_explicit_file") is not False:
                 c.failing.append({"case": case["args"], "impl": o["verdicts"],
                                   "clause": "C12_explicit_files_kept: --ignore-file pattern not applied under these flags"})
             for p, want in case["extra"].items():
@@ -108,24 +117,28 @@ class C12(Prop):
                     c.failing.append({"case": case["args"], "impl": {p: o["verdicts"].get(p)}, "expected": want,
                                       "clause": f"C12_explicit_patterns_kept: --{case['opt']} has a different effect under these flags"})
             if case["opt"] == "none":
-                base[case["bits"]] = o["verdicts"]
+                base[(case["layout"], case["bits"])] = o["verdicts"]
             if len(c.samples) < 3 and case["bits"] in (5, 48) and case["opt"] == "ignore-file":
                 c.samples.append({"case": case["args"], "impl_list": o["listed"], "model": m, "impl_verdicts": o["verdicts"]})
         # flags remove exactly the sources they name: compare with the no-flag run
-        if 0 in base:
-            for bits, v in base.items():
+        for layout in ("git", "novcs"):
+            if (layout, 0) not in base:
+                continue
+            for (lay, bits), v in base.items():
+                if lay != layout:
+                    continue
                 n_vcs, n_proj, n_glob, n_def, n_disc, n_all = [(bits >> i) & 1 for i in range(6)]
                 if n_all:
                     n_vcs = n_proj = n_glob = n_def = n_disc = 1
-                for p, sid in SRC.items():
+                for p, sid in (SRC if layout == "git" else SRC_NOVCS).items():
                     if p == "from_explicit_file":
                         continue
                     vcsy = sid in (1, 3, 4, 5, 6)
                     proj = sid in (1, 2, 3, 4, 5)
                     removed = n_disc or (n_proj and proj) or (n_glob and not proj) or (n_vcs and vcsy)
-                    want = True if removed else base[0][p]
+                    want = True if removed else base[(layout, 0)][p]
                     if v[p] != want:
-                        c.failing.append({"case": [FLAGS[i] for i in range(6) if bits >> i & 1], "impl": {p: v[p]}, "expected": want,
+                        c.failing.append({"case": {"layout": layout, "flags": [FLAGS[i] for i in range(6) if bits >> i & 1]}, "impl": {p: v[p]}, "expected": want,
                                           "clause": "C12_flag_exact: a flag removed a source it does not name, or kept one it names"})
                 if v["x.pyc"] != (True if n_def else False):
                     c.failing.append({"case": bits, "impl": v["x.pyc"], "clause": "C12_default_ignores_exact"})
